@@ -8,8 +8,10 @@
    "conc":  a timed history of completed calls.  [C14_conc_ok]: it is linearizable w.r.t. the
             plain model [sp_step] from the state the sequential setup produced (LinCheck).
    [al_observe]: the same "alias" experiment run INSIDE the heap model (Model/TrackerAlias.v):
-            the model's caller scribbles over everything reachable from every value, values are
-            read back through the heap.  Used for agreement (model vs. code), not for gating.
+            the model's caller scribbles over everything reachable from every value it gets
+            (operation results and sweep results, right after reading them back through the
+            heap); at the end every value is read back once more.  Used for agreement (model
+            vs. code) on sequences of at most [al_observe_max] operations, not for gating.
    Executable definitions only. *)
 From Verif Require Export TrackerObs TrackerAlias.
 From Verif Require LinCheck.
@@ -38,17 +40,17 @@ Definition rd_enc (s : astate) (v : rvalue) : list bytes :=
 (* values held by the caller: step index, value, how it read when the caller last touched it *)
 Definition held := (N * rvalue * list bytes)%type.
 
-(* one query sweep; [scrib]: scribble over each result (and do not record it) *)
-Fixpoint al_sweep (k : N) (scrib : bool) (s : astate) (qs : list op) : option (astate * list bytes * list held) :=
+(* one query sweep: every result is read back (recorded), then scribbled over *)
+Fixpoint al_sweep (k : N) (s : astate) (qs : list op) : option (astate * list bytes * list held) :=
   match qs with
   | [] => Some (s, [], [])
   | q :: qs' =>
       x ← al_step_std s q;
       let s1 := fst (fst x) in let v := snd (fst x) in
       let out := rd_enc s1 v in
-      let s2 := if scrib then scribble s1 v else s1 in
-      y ← al_sweep k scrib s2 qs';
-      Some (fst (fst y), (if scrib then [] else out) ++ snd (fst y), (k, v, rd_enc s2 v) :: snd y)
+      let s2 := scribble s1 v in
+      y ← al_sweep k s2 qs';
+      Some (fst (fst y), out ++ snd (fst y), (k, v, rd_enc s2 v) :: snd y)
   end.
 
 Fixpoint al_observe_aux (U : universe) (k : N) (s : astate) (ops : list op) : option (astate * list bytes * list held) :=
@@ -59,13 +61,12 @@ Fixpoint al_observe_aux (U : universe) (k : N) (s : astate) (ops : list op) : op
       let s1 := fst (fst x) in let v := snd (fst x) in
       let out := rd_enc s1 v in
       let s2 := scribble s1 v in
-      a ← al_sweep k true s2 (sweep_ops U);
-      b ← al_sweep k false (fst (fst a)) (sweep_ops U);
+      b ← al_sweep k s2 (sweep_ops U);
       y ← al_observe_aux U (N.succ k) (fst (fst b)) ops';
-      Some (fst (fst y), out ++ snd (fst b) ++ snd (fst y),
-            ((k, v, rd_enc s2 v) :: snd a) ++ snd b ++ snd y)
+      Some (fst (fst y), out ++ snd (fst b) ++ snd (fst y), ((k, v, rd_enc s2 v) :: snd b) ++ snd y)
   end.
 
+Definition al_observe_max : nat := 120.
 Definition al_observe (me : name) (U : universe) (ops : list op) : list bytes :=
   match al_observe_aux U 0%N (al_new me) ops with
   | None => [t_panic]
